@@ -61,7 +61,7 @@ def main():
     for wt in wts.values():
         sh(["git", "-C", "/repo", "worktree", "remove", "--force", wt])
     # restore generated tables for the real repo
-    for tool in ("translate.py", "py2lean.py", "py2lean_typed.py", "py2lean_frag.py"):
+    for tool in ("translate.py", "py2lean.py", "py2lean_typed.py", "py2lean_frag.py", "py2lean_comp.py"):
         sh(["/venv/bin/python", os.path.join(V, "tools", tool), "--repo", "/repo", "--out", os.path.join(V, "lean", "Cpl", "Gen")])
     json.dump(results, open(os.path.join(V, "mutants", "RESULTS.json"), "w"), indent=1)
     missed = [n for n, r in results.items() if not r.get("detected")]
